@@ -271,8 +271,15 @@ func (r *coreRun) sharedAttrs(a, b int) slog.Attrs {
 	if v, ok := coreSharedAttrs[k]; ok {
 		return v
 	}
-	v := make(slog.Attrs, 0, 8)
-	v = append(v, r.mkAttr(a, b))
+	var v slog.Attrs
+	if (a+b)%2 == 1 {
+		// built the documented way, SetAttrs1(NewAttrs(...)): such a list starts with empty (nil) slots, which
+		// end up BETWEEN the attributes once two lists are appended
+		v = slog.NewAttrs(r.mkAttr(a, b))
+	} else {
+		v = make(slog.Attrs, 0, 8)
+		v = append(v, r.mkAttr(a, b))
+	}
 	coreSharedAttrs[k] = v
 	return v
 }
